@@ -167,6 +167,7 @@ type fault struct {
 var faultyPathOf = map[string]func(ra raFile) string{
 	"stored-name-of-another-file": func(ra raFile) string { return "LAST" },
 	"chain-offset-not-found":      func(ra raFile) string { return "regex-assembly/" + ra.id + "-chain9.ra" },
+	"chain-offset-beyond-255":     func(ra raFile) string { return "regex-assembly/" + ra.id + "-chain256.ra" },
 }
 
 func faultList() []fault {
@@ -231,6 +232,14 @@ func faultList() []fault {
 			ct.t["regex-assembly/"+ra.id+"-chain9.ra"] = []byte("x\n")
 		}, func(ra raFile) [][]string {
 			return [][]string{{"regex", "update", ra.id + "-chain9"}, {"regex", "compare", ra.id + "-chain9"}, {"regex", "update", "-a"}, {"regex", "compare", "-a"}}
+		}},
+		{"chain-offset-beyond-255", func(ct *crsTree, ra raFile) {
+			// the files exist, the offsets do not fit the grammar (0..255): nothing may be read as offset 0 or 1
+			ct.t["regex-assembly/"+ra.id+"-chain256.ra"] = []byte("wrapped\n")
+			ct.t["regex-assembly/"+ra.id+"-chain257.ra"] = []byte("wrappedtoo\n")
+		}, func(ra raFile) [][]string {
+			return [][]string{{"regex", "update", ra.id + "-chain256"}, {"regex", "compare", ra.id + "-chain256"}, {"regex", "update", ra.id + "-chain257.ra"}, {"regex", "compare", ra.id + "-chain257"},
+				{"regex", "generate", ra.id + "-chain256"}, {"regex", "format", ra.id + "-chain512"}}
 		}},
 		{"rules-file-missing", func(ct *crsTree, ra raFile) { delete(ct.t, ct.rules[ra.id[:3]]) }, func(ra raFile) [][]string {
 			return [][]string{{"regex", "update", ra.arg}, {"regex", "compare", ra.arg}, {"regex", "update", "-a"}, {"regex", "compare", "-a"}}
@@ -472,11 +481,14 @@ func addLeakScenario(r *rand.Rand, ct *crsTree, kind int) {
 		ct.t[early.path] = append(ct.t[early.path], []byte("##!> include-except leak-a leak-x\n##!> include leak-w -- @ x\n")...)
 		ct.t[last.path] = append(ct.t[last.path], []byte("##!> include-except leak-b leak-x\n##!> include leak-w\n")...)
 		ct.incl = append(ct.incl, "leak-a", "leak-b", "leak-x", "leak-w")
+	case 5: // an early file the formatter gives up on half way (a block end nothing opened, after some lines): what it
+		// had collected so far must not reach the files formatted after it (format --all carries on after a failure)
+		ct.t[early.path] = []byte("homer\n  bart  \n##!<\nmarge\n")
 	}
 }
 
 func genC08(r *rand.Rand, tier string, env *Env) []Case {
-	n, orders := 10, 2
+	n, orders := 12, 2
 	if tier == "thorough" {
 		n, orders = 120, 6
 	}
@@ -487,10 +499,14 @@ func genC08(r *rand.Rand, tier string, env *Env) []Case {
 			nRa = 2 + r.Intn(3)
 		}
 		ct := genCRSTree(r, nRa)
+		cmds := []string{"update", "format", "compare"}
 		if i%2 == 1 {
-			addLeakScenario(r, ct, (i/2)%5)
+			addLeakScenario(r, ct, (i/2)%6)
+			if (i/2)%6 == 5 {
+				cmds = []string{"format"} // update and compare end at the first failing file: not comparable with singles
+			}
 		}
-		for _, cmd := range []string{"update", "format", "compare"} {
+		for _, cmd := range cmds {
 			var args []string
 			for _, ra := range ct.ra {
 				args = append(args, ra.arg)
@@ -514,7 +530,7 @@ func genC08(r *rand.Rand, tier string, env *Env) []Case {
 	for i := 0; i < nt; i++ {
 		ct := genCRSTree(r, 2+r.Intn(4))
 		if i%2 == 1 {
-			addLeakScenario(r, ct, (i/2)%5)
+			addLeakScenario(r, ct, (i/2)%6)
 		}
 		files := treeArgs(ct.t)
 		ops := cliCmdOps(ct, []string{"regex", "update", "-a"})
@@ -537,8 +553,10 @@ func oracleC18Arg(p *Pair, env *Env, a [][]byte) *Failure {
 	g := runCLI(env, sb, nil, "-l", "disabled", "regex", "generate", arg)
 	if wantFile == "" {
 		u := runCLI(env, sb, nil, "-l", "disabled", "regex", "update", arg)
-		if g.exit == 0 || u.exit == 0 || len(g.stdout) > 0 {
-			return &Failure{What: "an argument outside the accepted grammar is not rejected", Detail: fmt.Sprintf("%q: generate exit %d %q, update exit %d", arg, g.exit, g.stdout, u.exit)}
+		cm := runCLI(env, sb, nil, "-l", "disabled", "regex", "compare", arg)
+		// (format is not asked: what is no rule argument is an include name there, resolved below regex-assembly/include)
+		if g.exit == 0 || u.exit == 0 || cm.exit == 0 || len(g.stdout) > 0 || len(cm.stdout) > 0 {
+			return &Failure{What: "an argument outside the accepted grammar is not rejected", Detail: fmt.Sprintf("%q: generate exit %d %q, update exit %d, compare exit %d %q", arg, g.exit, g.stdout, u.exit, cm.exit, cm.stdout)}
 		}
 		if d := diffSnap(before, snapshot(sb)); len(d) > 0 {
 			return &Failure{What: "a rejected argument still modified files", Detail: fmt.Sprintf("%q: %s", arg, strings.Join(d, ","))}
@@ -631,16 +649,16 @@ func genC18(r *rand.Rand, tier string, env *Env) []Case {
 		case 6:
 			arg = id + pick(r, []string{".raa", ".r", ".ra.ra", "-chain1.raX", " ", "-chain1-chain2", ".RA", "-Chain1", "x"})
 		case 7:
-			arg = pick(r, []string{"", "-", "foo", "unix-shell", " 942100", "942100 ", "942100\n", "94210a"})
+			arg = pick(r, []string{"", "-", "foo", "unix-shell", " 942100", "942100 ", "942100\n", "94210a", "x/942100", "942100/", "./942100.ra", "../942100-chain1"})
 		case 8:
 			arg = id + "-chain" + fmt.Sprint(250+r.Intn(12)) + pick(r, []string{"", ".ra"})
 		}
 		cases = append(cases, Case{Kind: "argument", Ops: []Op{{"ruleid.parse", [][]byte{[]byte(arg)}}}})
 	}
 	// resolution through the binary
-	m := 18
+	m := 29
 	if tier == "thorough" {
-		m = 120
+		m = 150
 	}
 	c18Tree := func(extra ...string) Tree {
 		t := Tree{"regex-assembly/942100.ra": []byte("plain\n"), "regex-assembly/942100-chain1.ra": []byte("chainone\n"), "regex-assembly/942100-chain255.ra": []byte("last\n"),
@@ -658,7 +676,10 @@ func genC18(r *rand.Rand, tier string, env *Env) []Case {
 		{"942100-chain1.ra", "regex-assembly/942100-chain1.ra"}, {"942100-chain255", "regex-assembly/942100-chain255.ra"}, {"942100-chain01", "regex-assembly/942100-chain01.ra"},
 		{"942100-chain007.ra", "regex-assembly/942100-chain007.ra"}, {"942100-chain7", "regex-assembly/942100-chain7.ra"}, {"942100-chain0", "regex-assembly/942100-chain0.ra"},
 		{"942100-chain19.ra", "regex-assembly/942100-chain19.ra"},
-		{"942100-chain256", ""}, {"942100-chain256.ra", ""}, {"94210", ""}, {"9421000", ""}, {"942100-chain", ""}, {"942100.raa", ""}, {"942100-chain300", ""}, {"942100-chain99999999999999999999", ""}}
+		{"942100-chain256", ""}, {"942100-chain256.ra", ""}, {"94210", ""}, {"9421000", ""}, {"942100-chain", ""}, {"942100.raa", ""}, {"942100-chain300", ""}, {"942100-chain99999999999999999999", ""},
+		// path-like arguments: the argument is a rule id, never a path to the assembly file
+		{"x/942100.ra", ""}, {"../942100-chain1", ""}, {"942100/", ""}, {"999999/942100", ""}, {"/tmp/elsewhere/942100.ra", ""}, {"./942100", ""},
+		{"regex-assembly/942100.ra", ""}, {"942100.ra/", ""}, {"regex-assembly/942100-chain1", ""}, {"942100-chain257", ""}, {"942100-chain511.ra", ""}}
 	for i := 0; i < m; i++ {
 		e := exs[i%len(exs)]
 		if i >= len(exs) {
@@ -712,12 +733,17 @@ func oracleC17(p *Pair, env *Env, a [][]byte) *Failure {
 	}
 	empty := [][]byte{{}, {}, {}, {}, {}, {}}
 	switch site {
-	case "generate", "generate-include", "generate-include-prefixed", "generate-include-suffixed", "generate-nested-include", "generate-replace-suffixes", "generate-include-except", "generate-exclude-file":
+	case "generate", "generate-defined", "generate-include-defined", "generate-include", "generate-include-prefixed", "generate-include-suffixed", "generate-nested-include", "generate-replace-suffixes", "generate-include-except", "generate-exclude-file":
 		// the entries `zzq1` and `zzq2` must both be alternatives of the result
 		var args [][]byte
 		switch site {
 		case "generate":
 			args = append(append([][]byte{}, empty...), join(place([]string{"zzq1", "zzq2"}, long)))
+		case "generate-defined":
+			// a file with definitions goes through the expansion step as well (and only such a file does)
+			args = append(append([][]byte{}, empty...), join(place([]string{"##!> define zzword q1", "zz{{zzword}}", "zzq2"}, long)))
+		case "generate-include-defined":
+			args = append(append([][]byte{}, empty...), []byte("##!> include big\n"), []byte("i"), []byte("big.ra"), join(place([]string{"##!> define zzword q1", "zz{{zzword}}", "zzq2"}, long)))
 		case "generate-include":
 			args = append(append([][]byte{}, empty...), []byte("##!> include big\n"), []byte("i"), []byte("big.ra"), join(place([]string{"zzq1", "zzq2"}, long)))
 		case "generate-include-prefixed":
@@ -831,10 +857,10 @@ func genC17(r *rand.Rand, tier string, env *Env) []Case {
 		lengths = []int{1, 4095, 4096, 65534, 65535, 65536, 65537, 65538, 100000, 131072, 131073, 262143, 262144, 262145, 300000, 524288, 1048576, 1048577, 4194305}
 	}
 	var cases []Case
-	sites := []string{"generate", "generate-include", "generate-include-prefixed", "generate-include-suffixed", "generate-nested-include", "generate-replace-suffixes", "generate-include-except", "generate-exclude-file", "format", "renumber", "copyright"}
+	sites := []string{"generate", "generate-defined", "generate-include-defined", "generate-include", "generate-include-prefixed", "generate-include-suffixed", "generate-nested-include", "generate-replace-suffixes", "generate-include-except", "generate-exclude-file", "format", "renumber", "copyright"}
 	for _, site := range sites {
 		for _, n := range lengths {
-			if site == "generate" && n > 140000 {
+			if (site == "generate" || site == "generate-defined") && n > 140000 && n != 262144 {
 				continue // the assembler's own line loop needs the engine, which is quadratic on very long literals
 			}
 			for _, pos := range []string{"first", "middle", "last"} {
@@ -872,7 +898,7 @@ func init() {
 	properties["C15"] = &Property{ID: "C15", LeanMods: []string{"CrsProps.C15"}, Corr: "K10 (binary on sandbox trees, recursive snapshot path/size/sha256/mode before and after)", Workers: 8,
 		Rule: treeRule + "19-20 command lines per tree (inspecting and rewriting commands, single target / --all / --check / -o github), run from the root, with -d root, -d subdirectory, relative -d; non-trivial = every run; distinct by (tree, command, mode)", Gen: genC15}
 	properties["C16"] = &Property{ID: "C16", LeanMods: []string{"CrsProps.C16"}, Corr: "K10 (exit status, stdout, tree snapshot under single injected faults)", Workers: 8,
-		Rule: treeRule + "one fault of 21 classes injected into the first/middle/last assembly file (or the rules file / argument / version), every command the fault concerns; non-trivial = every run; distinct by (tree, fault, command)", Gen: genC16,
+		Rule: treeRule + "one fault of 22 classes injected into the first/middle/last assembly file (or the rules file / argument / version), every command the fault concerns; non-trivial = every run; distinct by (tree, fault, command)", Gen: genC16,
 		Assume: []string{"known finding D19: update --all / format --all are not atomic — targets of assembly files preceding the faulty one (format: any other file) are already rewritten when the run fails"}}
 	properties["C08"] = &Property{ID: "C08", LeanMods: []string{"CrsProps.C08"}, Corr: "K10 (tree after --all vs tree after the single invocations in a random order; compare verdict lines)", Workers: 8,
 		Rule: treeRule + "update/format/compare --all against the sequence of single invocations in 2 (quick) / 6 (thorough) random orders; assembly files share stored names and definition names; non-trivial = trees with at least two assembly files; distinct by (tree, command, order)", Gen: genC08}
